@@ -92,6 +92,10 @@ type c07Tr struct {
 	nodeAlias map[string]string // identifier bound to g.nodes[k] -> Gallina key term k
 	ghLocals  map[string]bool   // locals holding a *genericHelper
 	sticky    bool              // kind "ares": behind the `defer` that makes an error sticky
+	updTerm   string            // how a call of g.updateToValidateMap() is rendered ("upd" by default)
+	whole     string            // "branch" / "node": translating the whole addBranch / addNode
+	headFirst ast.Stmt          // whole addBranch: the first of the three statements translated as branch_head
+	loopStmt  *ast.RangeStmt    // whole addBranch: the loop whose body is translated as branch_end
 }
 
 func (t *c07Tr) errf(format string, a ...interface{}) error {
@@ -340,13 +344,26 @@ func (t *c07Tr) endValue() (string, error) {
 	case "convs":
 		return "(pre_conv, post_conv)", nil
 	}
+	if t.kind == "loop" {
+		return "Some xs", nil
+	}
 	if t.kind == "ares" {
 		return "", t.errf("control reaches the end of the function without a return")
 	}
 	return "", t.errf("control reaches the end of the function without a return")
 }
 
+func (t *c07Tr) upd() string {
+	if t.updTerm != "" {
+		return t.updTerm
+	}
+	return "upd"
+}
+
 func (t *c07Tr) failValue() string {
+	if t.kind == "loop" {
+		return "None"
+	}
 	if t.kind == "ares" {
 		if t.sticky {
 			return "AFailSticky"
@@ -413,6 +430,11 @@ func (t *c07Tr) stmts(l []ast.Stmt, ind string, depth int) (string, error) {
 		return t.endValue()
 	}
 	rest := func(n int) (string, error) { return t.stmts(l[n:], ind, depth) }
+	if t.whole == "branch" && t.headFirst != nil && l[0] == t.headFirst && len(l) >= 3 {
+		// the three statements translated on their own as branch_head
+		r, err := rest(3)
+		return "match branch_head u (upd 0%nat) xs startNode branch_inputType with\n" + ind + "| BFail => " + t.failValue() + "\n" + ind + "| BOk xs conv =>\n" + ind + r + "\n" + ind + "end", err
+	}
 	let := func(v, e string, n int) (string, error) {
 		r, err := rest(n)
 		return "let " + v + " := " + e + " in\n" + ind + r, err
@@ -495,6 +517,13 @@ func (t *c07Tr) stmts(l []ast.Stmt, ind string, depth int) (string, error) {
 			return rest(1)
 		}
 	case *ast.RangeStmt:
+		// for endNode := range branch.endNodes { BODY }: a fold with early exit over the end nodes in the
+		// order the map iteration delivers them ([ends_order]); the j-th iteration's updateToValidateMap is upd (S j)
+		if t.whole == "branch" && c07sq(x.X) == "branch.endNodes" && x.Key != nil && c07sq(x.Key) == "endNode" && x.Value == nil && x == t.loopStmt {
+			// the body is translated on its own as branch_end
+			r, err := rest(1)
+			return "match x_fold_ends (fun j xs endNode => bres_opt (branch_end (upd (S j)) xs startNode endNode)) 0 xs ends_order with\n" + ind + "| None => " + t.failValue() + "\n" + ind + "| Some xs =>\n" + ind + r + "\n" + ind + "end", err
+		}
 		// for i := range g.controlEdges[s] { if g.controlEdges[s][i] == e { return <error> } }
 		if t.kind == "ares" && x.Key != nil && x.Value == nil && len(x.Body.List) == 1 {
 			if ix, ok := x.X.(*ast.IndexExpr); ok && (c07sq(ix.X) == "g.controlEdges" || c07sq(ix.X) == "g.dataEdges") {
@@ -561,10 +590,30 @@ func (t *c07Tr) stmts(l []ast.Stmt, ind string, depth int) (string, error) {
 			if x.Tok == token.DEFINE && ls == "endNode" && rs == "g.toValidateMap[startNode][i]" && t.kind == "xres" {
 				return rest(1)
 			}
+			if t.whole == "branch" {
+				// the graph's own copy of the branch value; its index among the branches of the start node
+				if x.Tok == token.DEFINE && rs == "*branch" && len(l) >= 2 {
+					if as2, ok := l[1].(*ast.AssignStmt); ok && as2.Tok == token.ASSIGN && c07ExprList(as2.Lhs) == "branch" && c07ExprList(as2.Rhs) == "&"+ls {
+						return rest(2)
+					}
+				}
+				if x.Tok == token.ASSIGN && ls == "branch.idx" && rs == "len(g.handlerPreBranch[startNode])" {
+					return rest(1)
+				}
+				if x.Tok == token.ASSIGN && ls == "branch.noDataFlow" && rs == "true" {
+					return "AOutside", nil // a branch without data flow (Workflow): outside the model
+				}
+				if x.Tok == token.ASSIGN && ls == "g.branches[startNode]" && rs == "append(g.branches[startNode],branch)" {
+					return let("xs", "x_push_branch xs startNode branch_inputType ends choice (conv_tys conv)", 1)
+				}
+			}
+			if t.whole == "node" && x.Tok == token.ASSIGN && ls == "g.nodes[key]" && rs == "node" {
+				return let("xs", "x_push_node xs key isp node_in node_out pre post", 1)
+			}
 			// e := g.updateToValidateMap(); if e != nil { return e }
 			if v, ok := c07UpdCall(x); ok && len(l) >= 2 && c07IsReturnIfErr(l[1], v) {
 				r, err := rest(2)
-				return "match upd xs with\n" + ind + "| None => " + t.failValue() + "\n" + ind + "| Some xs =>\n" + ind + r + "\n" + ind + "end", err
+				return "match " + t.upd() + " xs with\n" + ind + "| None => " + t.failValue() + "\n" + ind + "| Some xs =>\n" + ind + r + "\n" + ind + "end", err
 			}
 			// locals
 			if id, ok := lhs.(*ast.Ident); ok && t.ghLocals[id.Name] && x.Tok == token.ASSIGN {
@@ -657,7 +706,7 @@ func (t *c07Tr) stmts(l []ast.Stmt, ind string, depth int) (string, error) {
 					}
 				}
 				// g.handlerPreBranch[s] = append(g.handlerPreBranch[s], []handlerPair{c, …})
-				if c07sq(ix.X) == "g.handlerPreBranch" && t.kind == "bres" {
+				if c07sq(ix.X) == "g.handlerPreBranch" && (t.kind == "bres" || t.whole == "branch") {
 					if _, ok := t.key(ix.Index); ok {
 						if call, ok := rhs.(*ast.CallExpr); ok && c07sq(call.Fun) == "append" && len(call.Args) == 2 && c07sq(call.Args[0]) == ls {
 							if cl, ok := call.Args[1].(*ast.CompositeLit); ok && c07sq(cl.Type) == "[]handlerPair" {
@@ -702,7 +751,7 @@ func (t *c07Tr) stmts(l []ast.Stmt, ind string, depth int) (string, error) {
 				probe := &ast.IfStmt{Cond: x.Cond, Body: x.Body, Else: x.Else}
 				if c07IsReturnIfErr(probe, v) {
 					r, err := rest(1)
-					return "match upd xs with\n" + ind + "| None => " + t.failValue() + "\n" + ind + "| Some xs =>\n" + ind + r + "\n" + ind + "end", err
+					return "match " + t.upd() + " xs with\n" + ind + "| None => " + t.failValue() + "\n" + ind + "| Some xs =>\n" + ind + r + "\n" + ind + "end", err
 				}
 			}
 			// the creation of an inner map: if _, ok := g.M[k]; !ok { g.M[k] = make(…) }
@@ -737,7 +786,7 @@ func (t *c07Tr) stmts(l []ast.Stmt, ind string, depth int) (string, error) {
 		}
 		return t.ifChain(x, l[1:], ind, depth)
 	}
-	return "", t.errf("statement outside the translated fragment: %T", l[0])
+	return "", t.errf("statement outside the translated fragment: %T %s", l[0], c07Squash(c07NodeString(l[0])))
 }
 
 func (t *c07Tr) ifChain(x *ast.IfStmt, after []ast.Stmt, ind string, depth int) (string, error) {
@@ -1043,7 +1092,23 @@ func c07ExtractBranch(repo string) (string, string, error) {
 	b.WriteString("Definition branch_head (u : univ) (upd : xstate -> option xstate) (xs : xstate) (startNode : key) (branch_inputType : ty) : bres :=\n" +
 		"  let conv := @nil (option ty) in\n  " + head + ".\n\n")
 	b.WriteString("Definition branch_end (upd : xstate -> option xstate) (xs : xstate) (startNode endNode : key) : bres :=\n" +
-		"  let conv := @nil (option ty) in\n  " + end + ".\n")
+		"  let conv := @nil (option ty) in\n  " + end + ".\n\n")
+	// the whole function
+	t = mk("ares")
+	t.whole = "branch"
+	t.headFirst = l[hs]
+	t.loopStmt = loop
+	t.updTerm = "(upd 0%nat)"
+	t.bools["g.buildError!=nil"] = "(g_err (x_st xs))"
+	t.bools["g.compiled"] = "(g_compiled (x_st xs))"
+	t.bools["skipData"] = "skipData"
+	t.bools["len(branch.endNodes)==1"] = "(Nat.eqb (List.length ends) 1)"
+	whole, err := t.stmts(l, "  ", 0)
+	if err != nil {
+		return "", "", err
+	}
+	b.WriteString("Definition add_branch (u : univ) (upd : nat -> xstate -> option xstate) (xs : xstate) (startNode : key) (branch_inputType : ty) (ends ends_order choice : list key) (skipData : bool) : ares :=\n" +
+		"  let conv := @nil (option ty) in\n  " + whole + ".\n")
 	return "BranchCode.v", b.String(), nil
 }
 
@@ -1252,7 +1317,22 @@ func c07ExtractAddNode(repo string) (string, string, error) {
 	var b strings.Builder
 	b.WriteString(c07Header("AddNodeCode.v", "c07_addnode", "compose/graph.go (addNode: the option and state-handler checks)"))
 	b.WriteString(c07Imports + "\nDefinition tie_available : bool := true.\n\n")
-	b.WriteString("Definition add_node_checks (u : univ) (gst : option N) (node_in node_out : option ty) (pre post : option hspec) : bool :=\n  " + code + ".\n")
+	b.WriteString("Definition add_node_checks (u : univ) (gst : option N) (node_in node_out : option ty) (pre post : option hspec) : bool :=\n  " + code + ".\n\n")
+	// the whole function
+	w := c07NewTr("graph.addNode", "ares")
+	w.whole = "node"
+	w.keys["key"] = "key"
+	w.bools, w.tyNames, w.skipIf = t.bools, t.tyNames, t.skipIf
+	w.bools["g.buildError!=nil"] = "(g_err (x_st xs))"
+	w.bools["g.compiled"] = "(g_compiled (x_st xs))"
+	w.bools["g.stateGenerator==nil"] = "(negb (opt_some (g_st (x_st xs))))"
+	w.bools["g.stateType!=options.processor.preStateType"] = "(negb (st_eq (g_st (x_st xs)) (h_state_of pre)))"
+	w.bools["g.stateType!=options.processor.postStateType"] = "(negb (st_eq (g_st (x_st xs)) (h_state_of post)))"
+	whole, err := w.stmts(l, "  ", 0)
+	if err != nil {
+		return "", "", err
+	}
+	b.WriteString("Definition add_node (u : univ) (xs : xstate) (key : key) (isp : bool) (node_in node_out : option ty) (pre post : option hspec) : ares :=\n  " + whole + ".\n")
 	return "AddNodeCode.v", b.String(), nil
 }
 
